@@ -503,6 +503,69 @@ impl<'a> MachineAfterAluCalculations<'a> {
     }
 }
 
+/// Verification hooks: read/write access to the otherwise private
+/// micro-architectural state. Add-only, never compiled by default.
+#[cfg(any(kani, feature = "verif-hooks"))]
+impl RawMachine {
+    pub fn verif_micro_address(&self) -> usize {
+        self.microprogram_ram.get_address()
+    }
+    pub fn verif_set_micro_address(&mut self, address: usize) {
+        self.microprogram_ram.set_address(address)
+    }
+    pub fn verif_ir(&self) -> u8 {
+        self.instruction_register.get_raw()
+    }
+    pub fn verif_set_ir(&mut self, raw: u8) {
+        self.instruction_register.set_raw(raw)
+    }
+    pub fn verif_pending_register_write(&self) -> Option<RegisterNumber> {
+        self.pending_register_write
+    }
+    pub fn verif_set_pending_register_write(&mut self, reg: Option<RegisterNumber>) {
+        self.pending_register_write = reg
+    }
+    pub fn verif_pending_flag_write(&self) -> bool {
+        self.pending_flag_write.is_some()
+    }
+    pub fn verif_set_pending_flag_write(&mut self, pending: bool) {
+        self.pending_flag_write = if pending { Some(FlagWrite) } else { None }
+    }
+    pub fn verif_pending_edge_interrupt(&self) -> bool {
+        self.pending_edge_interrupt.is_some()
+    }
+    pub fn verif_set_pending_edge_interrupt(&mut self, pending: bool) {
+        self.pending_edge_interrupt = if pending { Some(Interrupt) } else { None }
+    }
+    pub fn verif_pending_level_interrupt(&self) -> bool {
+        self.pending_level_interrupt.is_some()
+    }
+    pub fn verif_set_pending_level_interrupt(&mut self, pending: bool) {
+        self.pending_level_interrupt = if pending { Some(Interrupt) } else { None }
+    }
+    pub fn verif_pending_wait(&self) -> bool {
+        self.pending_wait_for_memory.is_some()
+    }
+    pub fn verif_set_pending_wait(&mut self, pending: bool) {
+        self.pending_wait_for_memory = if pending { Some(MemoryWait) } else { None }
+    }
+    pub fn verif_alu_latch(&self) -> &AluOutput {
+        &self.alu_output
+    }
+    pub fn verif_set_alu_latch(&mut self, latch: AluOutput) {
+        self.alu_output = latch
+    }
+    pub fn verif_last_bus_read(&self) -> u8 {
+        self.last_bus_read
+    }
+    pub fn verif_set_last_bus_read(&mut self, byte: u8) {
+        self.last_bus_read = byte
+    }
+    pub fn verif_set_state(&mut self, state: State) {
+        self.state = state
+    }
+}
+
 #[cfg(test)]
 mod tests {
     use super::*;
